@@ -134,40 +134,40 @@ theorem run_set_location (e : ErrorS P) (p : Option P) (l : Option Nat) :
                  line := if truthyOptInt e.line then e.line else if truthyOptInt l then l else e.line }) := by
   obtain ⟨ep, el⟩ := e
   cases ep <;> cases p <;> cases hl : truthyOptInt el <;> cases hl2 : truthyOptInt l <;>
-    simp [Error.set_error_location_if_unknown, hl, hl2, SM.run_ite]
+    simp [Error.set_error_location_if_unknown, hl, hl2, SM.run_ite, py_helper]
 
 theorem run_path (e : ErrorS P) : (Error.path : SM (ErrorS P) (Gen.Reader.Exc P) _).run e = (.ok e.path, e) := by
-  simp [Error.path]
+  simp [Error.path, py_helper]
 
 variable (t : SchemaS A)
 
 @[simp] theorem run_union : (DataSchemaBuilder.union : SM (SchemaS A) (Gen.Reader.Exc P) _).run t = (.ok t.is_union, t) := by
-  simp [DataSchemaBuilder.union]
+  simp [DataSchemaBuilder.union, py_helper]
 @[simp] theorem run_serialization_mode :
     (DataSchemaBuilder.serialization_mode : SM (SchemaS A) (Gen.Reader.Exc P) _).run t = (.ok t.serialization_mode, t) := by
-  simp [DataSchemaBuilder.serialization_mode]
+  simp [DataSchemaBuilder.serialization_mode, py_helper]
 @[simp] theorem run_attributes :
     (DataSchemaBuilder.attributes : SM (SchemaS A) (Gen.Reader.Exc P) _).run t = (.ok (t.fields ++ t.constants), t) := by
-  simp [DataSchemaBuilder.attributes, DataSchemaBuilder.fields, DataSchemaBuilder.constants]
+  simp [DataSchemaBuilder.attributes, DataSchemaBuilder.fields, DataSchemaBuilder.constants, py_helper]
 @[simp] theorem run_set_comment (d : Str) :
     (DataSchemaBuilder.set_comment d : SM (SchemaS A) (Gen.Reader.Exc P) _).run t = (.ok (), { t with doc := d }) := by
-  simp [DataSchemaBuilder.set_comment]
+  simp [DataSchemaBuilder.set_comment, py_helper]
 theorem run_add_field (a : A) :
     (DataSchemaBuilder.add_field a : SM (SchemaS A) (Gen.Reader.Exc P) _).run t =
       if t.is_union && t.bit_length_computed_at_least_once then (.error (.dsdl ⟨none, none⟩), t)
       else (.ok (), { t with fields := t.fields ++ [a] }) := by
   cases h1 : t.is_union <;> cases h2 : t.bit_length_computed_at_least_once <;>
-    simp [DataSchemaBuilder.add_field, h1, h2, SM.run_ite, Error.init]
+    simp [DataSchemaBuilder.add_field, h1, h2, SM.run_ite, Error.init, py_helper]
 @[simp] theorem run_add_constant (a : A) :
     (DataSchemaBuilder.add_constant a : SM (SchemaS A) (Gen.Reader.Exc P) _).run t = (.ok (), { t with constants := t.constants ++ [a] }) := by
-  simp [DataSchemaBuilder.add_constant]
+  simp [DataSchemaBuilder.add_constant, py_helper]
 theorem run_set_serialization_mode (m : SerializationMode) (h : t.serialization_mode = none) :
     (DataSchemaBuilder.set_serialization_mode m : SM (SchemaS A) (Gen.Reader.Exc P) _).run t =
       (.ok (), { t with serialization_mode := some m }) := by
-  simp [DataSchemaBuilder.set_serialization_mode, h]
+  simp [DataSchemaBuilder.set_serialization_mode, h, py_helper]
 theorem run_make_union (h : t.is_union = false) :
     (DataSchemaBuilder.make_union : SM (SchemaS A) (Gen.Reader.Exc P) _).run t = (.ok (), { t with is_union := true }) := by
-  simp [DataSchemaBuilder.make_union, h]
+  simp [DataSchemaBuilder.make_union, h, py_helper]
 
 end generic
 
@@ -210,7 +210,7 @@ theorem gen_callback_call (c : Ctx) (el : Nat) (s : St) (a : Attr) (bad : Bool) 
   unfold commitAttr ofPending
   cases bad <;> cases hk : a.core.kind <;> cases hu : s.cur.union <;> cases ho : s.cur.offsetUsed <;>
     simp [DataTypeBuilder.element_callback_call, env, mkAttr, hk, zoomLast_ofB, run_add_field, ofSchema_addField, ofSchema_addConst,
-      ofB_cur, raise, hu, ho, ofSchema, blank, Error.init]
+      ofB_cur, raise, hu, ho, ofSchema, blank, Error.init, py_helper]
   all_goals simp [ofB, ofSchema, hu, ho]
 
 
@@ -230,12 +230,12 @@ theorem gen_flush_attribute (c : Ctx) (el : Nat) (s : St) (doc : Str) :
   cases hp : s.pending with
   | none =>
     have : (ofB c s).element_callback = none := by simp [ofB, hp]
-    simp [DataTypeBuilder.flush_attribute, this]
+    simp [DataTypeBuilder.flush_attribute, this, py_helper]
     all_goals simp [ofB, hp]
   | some p =>
     obtain ⟨a, bad⟩ := p
     have : (ofB c s).element_callback = some (ofPending (a, bad)) := by simp [ofB, hp]
-    simp only [DataTypeBuilder.flush_attribute, SM.run_bind, SM.run_get, Res.andThen_ok, this, gen_callback_call c el]
+    simp only [DataTypeBuilder.flush_attribute, SM.run_bind, SM.run_get, Res.andThen_ok, this, gen_callback_call c el, py_helper]
     cases hc : commitAttr c el s a bad (String.ofList doc) with
     | error e => simp
     | ok s' =>
@@ -265,7 +265,7 @@ theorem gen_on_attribute (c : Ctx) (s : St) :
     (DataTypeBuilder.on_attribute (env c)).run (ofB c s) =
       if Mode.isExtent s.cur.mode then (.error (.dsdl blank), ofB c s) else (.ok (), ofB c s) := by
   cases h : Mode.isExtent s.cur.mode <;>
-    simp [DataTypeBuilder.on_attribute, zoomLast_ofB, ofB_same, isDelimited_ofMode, h, SM.run_ite, blank, Error.init]
+    simp [DataTypeBuilder.on_attribute, zoomLast_ofB, ofB_same, isDelimited_ofMode, h, SM.run_ite, blank, Error.init, py_helper]
 
 /-- `on_field` / `on_constant` / `on_padding_field`: the builder half of `onAttr` -/
 theorem gen_on_attr (c : Ctx) (k : Nat) (s : St) (p : Attr × Bool) :
@@ -281,12 +281,12 @@ theorem gen_on_attr (c : Ctx) (k : Nat) (s : St) (p : Attr × Bool) :
       | .error _ => (.error (.dsdl blank), ofB c s) := by
     intro cb
     have := gen_flush_attribute c k s []
-    simp only [DataTypeBuilder.queue_attribute, SM.run_bind, this]
+    simp only [DataTypeBuilder.queue_attribute, SM.run_bind, this, py_helper]
     cases flushAttr c k s (String.ofList []) <;> simp
   have hcb : ∀ s' : St, ({ ofB c s' with element_callback := some (ofPending p) } : GBuilder) = ofB c { s' with pending := some p } := by
     intro s'; simp [ofB]
   cases h : Mode.isExtent s.cur.mode <;> cases hk : p.1.core.kind <;>
-    simp [DataTypeBuilder.on_field, DataTypeBuilder.on_padding_field, DataTypeBuilder.on_constant, gen_on_attribute, h, hq] <;>
+    simp [DataTypeBuilder.on_field, DataTypeBuilder.on_padding_field, DataTypeBuilder.on_constant, gen_on_attribute, h, hq, py_helper] <;>
     (cases hf : flushAttr c k s "" <;> simp [Except.map, ← hcb, ofPending, hk])
 
 
@@ -294,7 +294,7 @@ theorem gen_on_attr (c : Ctx) (k : Nat) (s : St) (p : Attr × Bool) :
 theorem gen_on_header_comment (c : Ctx) (s : St) (d : Str) :
     (DataTypeBuilder.on_header_comment (env c) d).run (ofB c s) =
       (.ok (), ofB c { s with cur := { s.cur with doc := String.ofList d } }) := by
-  simp [DataTypeBuilder.on_header_comment, zoomLast_ofB]
+  simp [DataTypeBuilder.on_header_comment, zoomLast_ofB, py_helper]
   all_goals simp [ofB, ofSchema]
 
 theorem init_eq_empty : (DataSchemaBuilder.init : GSchema) = ofSchema Schema.empty := rfl
@@ -306,10 +306,10 @@ theorem gen_on_marker (c : Ctx) (k : Nat) (s : St) :
   unfold onMarker
   cases hd : s.done with
   | nil =>
-    simp [DataTypeBuilder.on_service_response_marker, ofB_structs, hd, SM.run_ite, Except.map, init_eq_empty]
+    simp [DataTypeBuilder.on_service_response_marker, ofB_structs, hd, SM.run_ite, Except.map, init_eq_empty, py_helper]
     all_goals simp [ofB, hd]
   | cons x xs =>
-    simp [DataTypeBuilder.on_service_response_marker, ofB_structs, hd, SM.run_ite, Except.map, raise, blank, Error.init]
+    simp [DataTypeBuilder.on_service_response_marker, ofB_structs, hd, SM.run_ite, Except.map, raise, blank, Error.init, py_helper]
 
 theorem toList_beq (a b : String) : (a.toList == b.toList) = decide (a = b) := by
   by_cases h : a = b
@@ -342,52 +342,52 @@ theorem gen_on_directive (c : Ctx) (k : Nat) (s : St) (name : String) (e : Optio
   by_cases h1 : name = "print"
   · subst h1
     cases e with
-    | none => simp [DataTypeBuilder.on_print_directive, env, strOfOpt, ht rfl]; simp [ofB]
-    | some v => simp [DataTypeBuilder.on_print_directive, env, strOfOpt]; simp [ofB]
+    | none => simp [DataTypeBuilder.on_print_directive, env, strOfOpt, ht rfl, py_helper]; simp [ofB]
+    | some v => simp [DataTypeBuilder.on_print_directive, env, strOfOpt, py_helper]; simp [ofB]
   by_cases h2 : name = "assert"
   · subst h2
     rcases e with _ | (b | n | _)
-    · simp [DataTypeBuilder.on_assert_directive, env, optView, ExprView.isBoolean, SM.run_ite, raise, blank, Error.init]
+    · simp [DataTypeBuilder.on_assert_directive, env, optView, ExprView.isBoolean, SM.run_ite, raise, blank, Error.init, py_helper]
     · cases b <;>
-        simp [DataTypeBuilder.on_assert_directive, env, optView, viewOf, ExprView.isBoolean, ExprView.nativeBool, SM.run_ite, raise, blank, Error.init, ofB]
-    · simp [DataTypeBuilder.on_assert_directive, env, optView, viewOf, ExprView.isBoolean, SM.run_ite, raise, blank, Error.init]
-    · simp [DataTypeBuilder.on_assert_directive, env, optView, viewOf, ExprView.isBoolean, SM.run_ite, raise, blank, Error.init]
+        simp [DataTypeBuilder.on_assert_directive, env, optView, viewOf, ExprView.isBoolean, ExprView.nativeBool, SM.run_ite, raise, blank, Error.init, ofB, py_helper]
+    · simp [DataTypeBuilder.on_assert_directive, env, optView, viewOf, ExprView.isBoolean, SM.run_ite, raise, blank, Error.init, py_helper]
+    · simp [DataTypeBuilder.on_assert_directive, env, optView, viewOf, ExprView.isBoolean, SM.run_ite, raise, blank, Error.init, py_helper]
   by_cases h3 : name = "extent"
   · subst h3
     cases hm : s.cur.mode with
-    | some m => simp [DataTypeBuilder.on_extent_directive, zoomLast_ofB, ofB_same, hm, SM.run_ite, raise, blank, Error.init]
+    | some m => simp [DataTypeBuilder.on_extent_directive, zoomLast_ofB, ofB_same, hm, SM.run_ite, raise, blank, Error.init, py_helper]
     | none =>
       rcases e with _ | (b | n | _) <;>
         simp [DataTypeBuilder.on_extent_directive, zoomLast_ofB, ofB_same, hm, SM.run_ite, raise, blank, Error.init, env, optView, viewOf,
-          ExprView.isRational, unwrap, run_set_serialization_mode]
+          ExprView.isRational, unwrap, run_set_serialization_mode, py_helper]
       simp [ofB, ofSchema, hm, ofMode]
   by_cases h4 : name = "sealed"
   · subst h4
     cases hm : s.cur.mode with
-    | some m => simp [DataTypeBuilder.on_sealed_directive, zoomLast_ofB, ofB_same, hm, SM.run_ite, raise, blank, Error.init]
+    | some m => simp [DataTypeBuilder.on_sealed_directive, zoomLast_ofB, ofB_same, hm, SM.run_ite, raise, blank, Error.init, py_helper]
     | none =>
       cases e <;>
-        simp [DataTypeBuilder.on_sealed_directive, zoomLast_ofB, ofB_same, hm, SM.run_ite, raise, blank, Error.init, run_set_serialization_mode]
+        simp [DataTypeBuilder.on_sealed_directive, zoomLast_ofB, ofB_same, hm, SM.run_ite, raise, blank, Error.init, run_set_serialization_mode, py_helper]
       simp [ofB, ofSchema, hm, ofMode]
   by_cases h5 : name = "union"
   · subst h5
     cases e with
-    | some v => simp [DataTypeBuilder.on_union_directive, SM.run_ite, raise, blank, Error.init]
+    | some v => simp [DataTypeBuilder.on_union_directive, SM.run_ite, raise, blank, Error.init, py_helper]
     | none =>
       cases hu : s.cur.union <;> cases hf : s.cur.fields <;> cases hc : s.cur.consts <;>
         simp [DataTypeBuilder.on_union_directive, zoomLast_ofB, ofB_same, SM.run_ite, raise, blank, Error.init, hu, hf, hc, Schema.hasAttrs,
-          run_make_union]
+          run_make_union, py_helper]
       simp [ofB, ofSchema, hu, hf, hc]
   by_cases h6 : name = "deprecated"
   · subst h6
     cases e with
-    | some v => simp [DataTypeBuilder.on_deprecated_directive, SM.run_ite, raise, blank, Error.init]
+    | some v => simp [DataTypeBuilder.on_deprecated_directive, SM.run_ite, raise, blank, Error.init, py_helper]
     | none =>
       cases hd : s.deprecated <;> cases hdn : s.done <;> cases hf : s.cur.fields <;> cases hc : s.cur.consts <;>
         simp [DataTypeBuilder.on_deprecated_directive, zoomLast_ofB, ofB_same, SM.run_ite, raise, blank, Error.init, hd, hdn, hf, hc,
-          Schema.hasAttrs, ofB_structs]
+          Schema.hasAttrs, ofB_structs, py_helper]
       all_goals simp [ofB, hd, hdn]
-  simp [h1, h2, h3, h4, h5, h6, raise, blank, Error.init]
+  simp [h1, h2, h3, h4, h5, h6, raise, blank, Error.init, py_helper]
 
 
 /-! ### the visitor against the model -/
@@ -433,16 +433,16 @@ theorem gen_flush_comment (s : St) (k br : Nat) :
   unfold flush
   cases hh : s.header with
   | true =>
-    simp [ParseTreeProcessor.flush_comment, hh, SM.run_ite, gen_on_header_comment, ofSt_setB]
+    simp [ParseTreeProcessor.flush_comment, hh, SM.run_ite, gen_on_header_comment, ofSt_setB, py_helper]
     all_goals simp [ofSt, ofB, hh]
   | false =>
     have := gen_flush_attribute c (if s.lastAttrLine = 0 then k else s.lastAttrLine) s s.comment.toList
     rw [String.ofList_toList] at this
     have this : (DataTypeBuilder.on_attribute_comment (env c) s.comment.toList).run (ofB c s) =
         resB c s (flushAttr c (if s.lastAttrLine = 0 then k else s.lastAttrLine) s s.comment) := by
-      rw [← this]; simp [DataTypeBuilder.on_attribute_comment]
+      rw [← this]; simp [DataTypeBuilder.on_attribute_comment, py_helper]
     simp only [ParseTreeProcessor.flush_comment, SM.run_bind, SM.run_get, Res.andThen_ok, ofSt_header, hh, SM.run_ite, Bool.false_eq_true,
-      if_false, SM.run_tryCatch, SM.run_zoom, ofSt_proc, ofSt_comment, this]
+      if_false, SM.run_tryCatch, SM.run_zoom, ofSt_proc, ofSt_comment, this, py_helper]
     cases hf : flushAttr c (if s.lastAttrLine = 0 then k else s.lastAttrLine) s s.comment with
     | ok s' =>
       simp [Except.map, ofSt_setB]
@@ -538,7 +538,7 @@ theorem Sim.identifier (k br : Nat) (s : St) (t : Str) (ht : t ≠ []) :
       ((ParseTreeProcessor.flush_comment (env c)).run (ofSt c strict s k br)).andThen fun _ g => (.ok (), g) := by
     cases t with
     | nil => exact absurd rfl ht
-    | cons a t => simp [step, ParseTreeProcessor.visit, ParseTreeProcessor.visit_identifier]
+    | cons a t => simp [step, ParseTreeProcessor.visit, ParseTreeProcessor.visit_identifier, py_helper]
   rw [e]
   have := Sim.bind c strict (f := fun g => (.ok (), g)) (n := fun s' => .ok s') h (fun s' => rfl)
   rwa [bind_pure_M] at this
@@ -572,7 +572,7 @@ theorem Sim.nil (k br : Nat) (s : St) : Sim c strict k br (runEvs c [] (ofSt c s
 theorem step_other (x : Ext) (s : St) (k br : Nat) :
     (step c (.other x)).run (ofSt c strict s k br) =
       (((ext c x).run (ofB c s)).1, { ofSt c strict s k br with statement_stream_processor := ((ext c x).run (ofB c s)).2 }) := by
-  simp [step, ParseTreeProcessor.visit]
+  simp [step, ParseTreeProcessor.visit, py_helper]
 
 theorem getLast_ofB (s : St) : (ofB c s).structs.getLast? = some (ofSchema s.cur) := by
   simp [ofB_structs]
@@ -657,7 +657,7 @@ theorem step_literal (k br n : Nat) (s : St) :
     runEvs c [.literal_string_double_quoted (List.replicate n '\n')] (ofSt c strict s k br) = (.ok (), ofSt c strict s k (br + n)) := by
   rw [runEvs_single]
   simp [step, ParseTreeProcessor.visit, ParseTreeProcessor.visit_literal_string_double_quoted, ParseTreeProcessor.visit_literal_string, env,
-    strCountChar]
+    strCountChar, py_helper]
   rfl
 
 theorem clean_toList (t : String) :
@@ -678,7 +678,7 @@ theorem step_comment (k br : Nat) (s : St) (t : String) :
     runEvs c [.comment ('#' :: t.toList)] (ofSt c strict s k br) = (.ok (), ofSt c strict (s.addComment t) k br) := by
   rw [runEvs_single]
   simp only [step, ParseTreeProcessor.visit, ParseTreeProcessor.visit_comment, SM.run_bind, SM.run_get, SM.run_modify, Res.andThen_ok,
-    clean_toList]
+    clean_toList, py_helper]
   unfold St.addComment
   by_cases h : s.comment = ""
   · simp [ofSt, ofB, h]
@@ -693,17 +693,17 @@ theorem Sim.line (k br : Nat) (s : St) (e : Bool) :
   cases e with
   | true =>
     have : (step c (.line [])).run (ofSt c strict s k br) = (ParseTreeProcessor.flush_comment (env c)).run (ofSt c strict s k br) := by
-      simp [step, ParseTreeProcessor.visit, ParseTreeProcessor.visit_line, SM.run_ite]
+      simp [step, ParseTreeProcessor.visit, ParseTreeProcessor.visit_line, SM.run_ite, py_helper]
     simp only [if_true, this]
     exact Sim.flush c strict k br s
   | false =>
-    simp [step, ParseTreeProcessor.visit, ParseTreeProcessor.visit_line, SM.run_ite, Sim]
+    simp [step, ParseTreeProcessor.visit, ParseTreeProcessor.visit_line, SM.run_ite, Sim, py_helper]
 
 /-- `visit_end_of_line` -/
 theorem step_eol (k br : Nat) (s : St) :
     runEvs c [.end_of_line] (ofSt c strict s k br) = (.ok (), ofSt c strict s (k + 1 + br) 0) := by
   rw [runEvs_single]
-  simp [step, ParseTreeProcessor.visit, ParseTreeProcessor.visit_end_of_line, ofSt]
+  simp [step, ParseTreeProcessor.visit, ParseTreeProcessor.visit_end_of_line, ofSt, py_helper]
   all_goals omega
 
 
@@ -752,7 +752,7 @@ theorem Sim.onAttr (k br : Nat) (s : St) (core : Core) (bad : Bool) (hk : 0 < k)
     cases hf : flushAttr c k s "" with
     | ok s' =>
       obtain ⟨f1, f2, f3, _, _⟩ := flushAttr_frame hf
-      simp [Except.map, ParseTreeProcessor.current_line_number, hk', Sim]
+      simp [Except.map, ParseTreeProcessor.current_line_number, hk', Sim, py_helper]
       all_goals simp [ofSt, ofB, f2, f3]
     | error e =>
       obtain ⟨e, w⟩ := e
@@ -769,7 +769,7 @@ theorem Sim.attr (k br : Nat) (s : St) (core : Core) (bad : Bool) (hk : 0 < k) (
   | field =>
     have hne := isEmpty_toList (hn (by simp [hkd]))
     simp only [step, ParseTreeProcessor.visit, ParseTreeProcessor.visit_statement_field, SM.run_bind, hne, Bool.not_false,
-      SM.run_assert_true, Res.andThen_ok]
+      SM.run_assert_true, Res.andThen_ok, py_helper]
     refine Sim.bind c strict (Sim.flush c strict k br s) fun s4 => ?_
     have h := gen_on_attr c k s4 (⟨core, "", k⟩, bad)
     simp only [hkd] at h
@@ -777,13 +777,13 @@ theorem Sim.attr (k br : Nat) (s : St) (core : Core) (bad : Bool) (hk : 0 < k) (
   | const =>
     have hne := isEmpty_toList (hn (by simp [hkd]))
     simp only [step, ParseTreeProcessor.visit, ParseTreeProcessor.visit_statement_constant, SM.run_bind, hne, Bool.not_false,
-      SM.run_assert_true, Res.andThen_ok]
+      SM.run_assert_true, Res.andThen_ok, py_helper]
     refine Sim.bind c strict (Sim.flush c strict k br s) fun s4 => ?_
     have h := gen_on_attr c k s4 (⟨core, "", k⟩, bad)
     simp only [hkd] at h
     exact Sim.onAttr c strict k br s4 core bad hk _ h
   | padding =>
-    simp only [step, ParseTreeProcessor.visit, ParseTreeProcessor.visit_statement_padding_field, SM.run_bind]
+    simp only [step, ParseTreeProcessor.visit, ParseTreeProcessor.visit_statement_padding_field, SM.run_bind, py_helper]
     refine Sim.bind c strict (Sim.flush c strict k br s) fun s4 => ?_
     have h := gen_on_attr c k s4 (⟨core, "", k⟩, bad)
     simp only [hkd] at h
@@ -820,7 +820,7 @@ theorem Sim.onDirective (k br : Nat) (s : St) (name : String) (e : Option EVal) 
           (DataTypeBuilder.on_directive (env c) t1 name.toList (e.map fun v => (v, text))) : SM GParser GExc Unit).run (ofSt c strict s k br))
       (Reader.onDirective c k s name e text) := by
   have hk' : decide (k > 0) = true := by simpa using hk
-  simp [ParseTreeProcessor.current_line_number, hk, gen_on_directive c k s name e text ht]
+  simp [ParseTreeProcessor.current_line_number, hk, gen_on_directive c k s name e text ht, py_helper]
   cases hd : Reader.onDirective c k s name e text with
   | ok s' =>
     simp only [Sim]
@@ -841,12 +841,12 @@ theorem Sim.directive (k br : Nat) (s : St) (l : Line) (name : String) (e : Opti
   cases e with
   | none =>
     simp only [stmtEvent, step, ParseTreeProcessor.visit, ParseTreeProcessor.visit_statement_directive_without_expression, SM.run_bind, hne,
-      Bool.not_false, SM.run_assert_true, Res.andThen_ok]
+      Bool.not_false, SM.run_assert_true, Res.andThen_ok, py_helper]
     refine Sim.bind c strict (Sim.flush c strict k br s) fun s4 => ?_
     exact Sim.onDirective c strict k br s4 name none text hk ht
   | some v =>
     simp only [stmtEvent, step, ParseTreeProcessor.visit, ParseTreeProcessor.visit_statement_directive_with_expression, SM.run_bind, hne,
-      Bool.not_false, SM.run_assert_true, Res.andThen_ok]
+      Bool.not_false, SM.run_assert_true, Res.andThen_ok, py_helper]
     refine Sim.bind c strict (Sim.flush c strict k br s) fun s4 => ?_
     exact Sim.onDirective c strict k br s4 name (some v) text hk ht
 
@@ -854,7 +854,7 @@ theorem Sim.marker (k br : Nat) (s : St) (l : Line) (hk : 0 < k) :
     Sim c strict k br (runEvs c [stmtEvent k l .marker] (ofSt c strict s k br))
       (Reader.flush c k s >>= fun s4 => Reader.onMarker c k s4) := by
   rw [runEvs_single]
-  simp only [stmtEvent, step, ParseTreeProcessor.visit, ParseTreeProcessor.visit_statement_service_response_marker, SM.run_bind]
+  simp only [stmtEvent, step, ParseTreeProcessor.visit, ParseTreeProcessor.visit_statement_service_response_marker, SM.run_bind, py_helper]
   refine Sim.bind c strict (Sim.flush c strict k br s) fun s4 => ?_
   have h := gen_on_marker c k s4
   have e1 : ∀ g : GParser, ({ g with comment_is_header := true } : GParser).statement_stream_processor = g.statement_stream_processor :=
@@ -1107,7 +1107,7 @@ theorem parse_handler (ge : GErr) (g : GParser) (hk : 0 < g.current_line_number)
     have h1 : truthyOptInt (some g.current_line_number) = true := by simp [truthyOptInt, h0]
     refine ⟨⟨none, if truthyOptInt ln then ln else some g.current_line_number⟩, ?_, by simp [readErr, finalErr]⟩
     cases ht : truthyOptInt ln <;>
-      simp [run_path, SM.run_ite, ParseTreeProcessor.current_line_number, hk, run_set_location, ht, h1]
+      simp [run_path, SM.run_ite, ParseTreeProcessor.current_line_number, hk, run_set_location, ht, h1, py_helper]
 
 /-- the body of the `try` statement of `parse` -/
 def parseBody (evs : List GEvent) (b : GBuilder) : Res GParser GExc Unit :=
@@ -1307,7 +1307,7 @@ theorem identifier_idem (k br : Nat) (s : St) (t1 t2 : Str) (h1 : t1 ≠ []) (h2
     intro t ht g
     cases t with
     | nil => exact absurd rfl ht
-    | cons a t => simp [step, ParseTreeProcessor.visit, ParseTreeProcessor.visit_identifier]
+    | cons a t => simp [step, ParseTreeProcessor.visit, ParseTreeProcessor.visit_identifier, py_helper]
   rw [runEvs_cons, runEvs_single, e t1 h1, gen_flush_comment]
   cases hf : Reader.flush c k s with
   | error x => rfl
@@ -1334,11 +1334,11 @@ theorem Book.trans' {g g' g'' : ParserS P T V A L H} (a : Book g g') (b : Book g
 theorem flush_comment_book (g : ParserS P T V A L H) : Book g ((ParseTreeProcessor.flush_comment en).run g).2 := by
   cases hh : g.comment_is_header with
   | true =>
-    simp only [ParseTreeProcessor.flush_comment, SM.run_bind, SM.run_get, Res.andThen_ok, hh, SM.run_ite, if_true, SM.run_zoom]
+    simp only [ParseTreeProcessor.flush_comment, SM.run_bind, SM.run_get, Res.andThen_ok, hh, SM.run_ite, if_true, SM.run_zoom, py_helper]
     rcases (DataTypeBuilder.on_header_comment en g.comment).run g.statement_stream_processor with ⟨_ | _, b'⟩ <;> exact ⟨rfl, rfl, rfl⟩
   | false =>
     simp only [ParseTreeProcessor.flush_comment, SM.run_bind, SM.run_get, Res.andThen_ok, hh, SM.run_ite, Bool.false_eq_true, if_false,
-      SM.run_tryCatch, SM.run_zoom]
+      SM.run_tryCatch, SM.run_zoom, py_helper]
     rcases (DataTypeBuilder.on_attribute_comment en g.comment).run g.statement_stream_processor with ⟨e | _, b'⟩
     · cases e with
       | dsdl e0 => simp [run_set_location]; exact ⟨rfl, rfl, rfl⟩
@@ -1355,7 +1355,7 @@ theorem flush_comment_commit_error (g : ParserS P T V A L H) (e0 : ErrorS P) (b'
     (ParseTreeProcessor.flush_comment en).run g =
       (.error (.dsdl ⟨e0.path, some g.last_attribute_line_number⟩), { g with statement_stream_processor := b' }) := by
   simp only [ParseTreeProcessor.flush_comment, SM.run_bind, SM.run_get, Res.andThen_ok, hh, SM.run_ite, Bool.false_eq_true, if_false,
-    SM.run_tryCatch, SM.run_zoom, h]
+    SM.run_tryCatch, SM.run_zoom, h, py_helper]
   have e1 : intOrNone g.last_attribute_line_number = some g.last_attribute_line_number := by simp [intOrNone, hla]
   have e2 : truthyOptInt (some g.last_attribute_line_number) = true := by simp [truthyOptInt, hla]
   obtain ⟨p, l⟩ := e0
@@ -1364,7 +1364,7 @@ theorem flush_comment_commit_error (g : ParserS P T V A L H) (e0 : ErrorS P) (b'
 
 theorem queue_attribute_callback (b b' : BuilderS P T V A L H) (cb : Callback T V)
     (h : (DataTypeBuilder.queue_attribute en cb).run b = (.ok (), b')) : b'.element_callback = some cb := by
-  simp only [DataTypeBuilder.queue_attribute, SM.run_bind, SM.run_modify] at h
+  simp only [DataTypeBuilder.queue_attribute, SM.run_bind, SM.run_modify, py_helper] at h
   rcases hf : (DataTypeBuilder.flush_attribute en ([] : Str)).run b with ⟨e | _, b1⟩
   · rw [hf] at h; simp at h
   · rw [hf] at h; simp at h; rw [← h]
@@ -1405,10 +1405,10 @@ theorem attr_statement_line (g g' : ParserS P T V A L H) (x : SM (BuilderS P T V
     · rw [hz] at h
       have hcb := on_attr_callback en _ _ x cb hx hz
       by_cases hk : g1.current_line_number > 0
-      · simp [ParseTreeProcessor.current_line_number, hk] at h
+      · simp [ParseTreeProcessor.current_line_number, hk, py_helper] at h
         rw [← h]
         exact ⟨hb.1, hb.1, hcb⟩
-      · simp [ParseTreeProcessor.current_line_number, hk] at h
+      · simp [ParseTreeProcessor.current_line_number, hk, py_helper] at h
 
 /-- the text of a comment node without its `#` and without ONE blank behind it -/
 def stripComment : Str → Str
@@ -1431,7 +1431,7 @@ theorem visit_comment_run (g : ParserS P T V A L H) (t : Str) :
         split
         · rename_i heq; simp at heq; exact absurd heq.1 ha
         · simp
-  simp only [ParseTreeProcessor.visit_comment, SM.run_bind, SM.run_get, SM.run_modify, Res.andThen_ok, e]
+  simp only [ParseTreeProcessor.visit_comment, SM.run_bind, SM.run_get, SM.run_modify, Res.andThen_ok, e, py_helper]
   by_cases h : g.comment = [] <;> simp [h]
 
 end frame
